@@ -119,6 +119,13 @@ func (b *bucket) Walk(
 	if err := filepathext.Walk(
 		externalPrefix,
 		func(externalPath string, fileInfo os.FileInfo, err error) error {
+			if err != nil && os.IsNotExist(err) && externalPath != externalPrefix {
+				// An entry that was listed by its directory but is gone by the time it is
+				// visited (removed concurrently, or the temporary file of an atomic Put
+				// that has been renamed) is not part of the bucket: continue the walk.
+				// Only the prefix itself not existing makes the whole walk a no-op.
+				return nil
+			}
 			if err != nil {
 				// this can happen if a symlink is broken
 				// in this case, we just want to continue the walk
@@ -152,7 +159,9 @@ func (b *bucket) Walk(
 						externalPath,
 					),
 				); err != nil {
-					return err
+					// An error of f is returned by Walk as it is, whatever it is: it must not
+					// be mistaken for an error (or filepath.SkipDir) of the walk itself.
+					return &walkFuncError{err: err}
 				}
 			}
 			return nil
@@ -163,9 +172,28 @@ func (b *bucket) Walk(
 			// Should be a no-op according to the spec.
 			return nil
 		}
+		var walkFuncErr *walkFuncError
+		if errors.As(err, &walkFuncErr) {
+			return walkFuncErr.err
+		}
 		return err
 	}
 	return nil
+}
+
+// walkFuncError carries an error returned by the function given to Walk through
+// filepathext.Walk. It is deliberately opaque to os.IsNotExist and to comparisons with
+// filepath.SkipDir.
+type walkFuncError struct {
+	err error
+}
+
+func (e *walkFuncError) Error() string {
+	return e.err.Error()
+}
+
+func (e *walkFuncError) Unwrap() error {
+	return e.err
 }
 
 func (b *bucket) Put(ctx context.Context, path string, options ...storage.PutOption) (storage.WriteObjectCloser, error) {
